@@ -126,11 +126,9 @@ class CounterStyle(dict):
         else:
             extends, system, fixed_number = None, 'symbolic', None
 
-        # Avoid circular fallbacks
+        # Circular fallbacks are avoided by resolve_counter
         if previous_types is None:
             previous_types = []
-        elif system in previous_types:
-            return self.render_value(counter_value, 'decimal')
         previous_types.append(counter_name)
 
         # Handle extends
